@@ -230,15 +230,15 @@ func init() {
 	register(&Plan{
 		Prop:  "C11",
 		Level: "exploration",
-		Rule: "exh: ALL sequences up to the length bound over (call x target logger): quick = 40 calls x 3 loggers, length <= 2 (14521 sequences); thorough = length <= 3 over 40 calls (1742521) ; calls = SetJSONMode/SetColorMode with 0, 1 or 2 boolean arguments, WithJSONMode/WithColorMode variants, New(..) on a logger with the mode options (with a name, with an empty name, without a name, behind another option, two mode options in a row) and two calls that are NOT mode calls and leave the format alone (the destination replaced by a real *os.File and back; records to a destination that fails; the colours of the probe severities taken away with SetLevelColors; SetLevel/SetAttrs/SetTimeFormat), WithSkip(1) (one child per count: a repeat hands out the existing child unchanged), NewSlogHandler with JSON / NoColor options (applies them once) and a record through the handler built earlier (not a mode call), children made by With / WithAttrs / WithAttrs1 (no mode call: the parent's format), slog.Reset() while the logger is the process's default logger (no mode call), mode calls handed an empty non-nil list of booleans (= no argument), New(name, attributes..., mode option), a line with < and & through a std log bridge on the logger (no mode call); one probe in six is a call with a blank message and no arguments; " +
+		Rule: "exh: ALL sequences up to the length bound over (call x target logger): quick = 42 calls x 3 loggers, length <= 2 (16003 sequences); thorough = length <= 3 over 42 calls (2016379) ; calls = SetJSONMode/SetColorMode with 0, 1 or 2 boolean arguments, WithJSONMode/WithColorMode variants, New(..) on a logger with the mode options (with a name, with an empty name, without a name, behind another option, two mode options in a row) and two calls that are NOT mode calls and leave the format alone (the destination replaced by a real *os.File and back; records to a destination that fails; the colours of the probe severities taken away with SetLevelColors; SetLevel/SetAttrs/SetTimeFormat), WithSkip(1) (one child per count: a repeat hands out the existing child unchanged), NewSlogHandler with JSON / NoColor options (applies them once) and a record through the handler built earlier (not a mode call), children made by With / WithAttrs / WithAttrs1 (no mode call: the parent's format), slog.Reset() while the logger is the process's default logger (no mode call), mode calls handed an empty non-nil list of booleans (= no argument), New(name, attributes..., mode option), a line with < and & through a std log bridge on the logger (no mode call); one probe in six is a call with a blank message and no arguments; " +
 			"targets = root, child, grandchild of a fresh tree. rand: random sequences of 4-15 calls, in a production process, under go test (where every other probe carries an error value whose dump is part of the record) and in production processes started with NO_COLOR / TERM=dumb / FORCE_COLOR style environments. After EVERY call, for EVERY logger of the tree (incl. the children created on the way): JSONMode()/ColorMode() == the modelled three-state machine and a probe record classifies ({ / ESC / time=) as that state. non-trivial = every completed sequence; distinct = by sequence",
 		Assumptions: []string{"a call without arguments means true, with several the last wins (as documented)"},
 		Floors:      map[string]int64{"probes_classified": 5000},
 		Exhaustive:  func(string) bool { return true },
 		Jobs: func(tier string, seed int64) []Job {
-			// 120 symbols: lengths <=2 -> 1+120+14400 = 14521 ; <=3 -> 1742521
-			n := pick(tier, 14521, 1742521)
-			js := chunk("exh", "prod", n, pick(tier, 1210, 87200), Job{Timeout: 30 * time.Minute})
+			// 126 symbols: lengths <=2 -> 1+126+15876 = 16003 ; <=3 -> 2016379
+			n := pick(tier, 16003, 2016379)
+			js := chunk("exh", "prod", n, pick(tier, 1340, 100900), Job{Timeout: 30 * time.Minute})
 			js = append(js, chunk("rand", "prod", pick(tier, 12000, 50000), pick(tier, 1000, 3200), Job{Timeout: 30 * time.Minute})...)
 			js = append(js, chunk("rand", "test", pick(tier, 4000, 20000), pick(tier, 1000, 2500), Job{Timeout: 30 * time.Minute})...)
 			// the format is decided by mode calls, not by the environment the process was started in
